@@ -12,6 +12,13 @@ struct Marker {
     has_kind: String,
     has_choice: String,
     has: bool,
+    /// further (choice) entries of the same kind this member provides (history rows)
+    also: Vec<String>,
+}
+impl Marker {
+    fn provides(&self, kind: &str, choice: &str) -> bool {
+        self.has_kind == kind && ((self.has && self.has_choice == choice) || self.also.iter().any(|c| c == choice))
+    }
 }
 struct MRng(u8);
 impl RngCore for MRng {
@@ -115,21 +122,21 @@ impl CryptoResolver for Marker {
         }
     }
     fn resolve_dh(&self, c: &DHChoice) -> Option<Box<dyn Dh>> {
-        if self.has && self.has_kind == "dh" && self.has_choice == dh_name(c) {
+        if self.provides("dh", dh_name(c)) {
             Some(Box::new(MDh(self.tag)))
         } else {
             None
         }
     }
     fn resolve_hash(&self, c: &HashChoice) -> Option<Box<dyn Hash>> {
-        if self.has && self.has_kind == "hash" && self.has_choice == hash_name(c) {
+        if self.provides("hash", hash_name(c)) {
             Some(Box::new(MHash(self.tag)))
         } else {
             None
         }
     }
     fn resolve_cipher(&self, c: &CipherChoice) -> Option<Box<dyn Cipher>> {
-        if self.has && self.has_kind == "cipher" && self.has_choice == cipher_name(c) {
+        if self.provides("cipher", cipher_name(c)) {
             Some(Box::new(MCipher(self.tag)))
         } else {
             None
@@ -150,6 +157,7 @@ pub fn main(o: &Opts) -> Result<i32, String> {
             has_kind: kind.to_string(),
             has_choice: choice.to_string(),
             has,
+            also: vec![],
         };
         let fr = FallbackResolver::new(
             Box::new(mk("preferred", 0x11, r["preferred_has"].as_bool().unwrap_or(false))),
@@ -196,6 +204,68 @@ pub fn main(o: &Opts) -> Result<i32, String> {
         if got != want {
             viol.push(json!({"op": "resolve", "what": format!("fallback_{kind}"), "cause": "", "expected": want, "observed": got,
                              "name": format!("{kind}:{choice} preferred_has={} fallback_has={}", r["preferred_has"], r["fallback_has"]), "row": r}));
+        }
+    }
+    // history rows: two queries on the SAME resolver object
+    let query = |fr: &FallbackResolver, kind: &str, choice: &str| -> String {
+        match kind {
+            "dh" => {
+                let c = match choice {
+                    "25519" => DHChoice::Curve25519,
+                    "448" => DHChoice::Curve448,
+                    _ => DHChoice::P256,
+                };
+                fr.resolve_dh(&c).map(|d| d.name().to_string()).unwrap_or("none".into())
+            },
+            "cipher" => {
+                let c = match choice {
+                    "ChaChaPoly" => CipherChoice::ChaChaPoly,
+                    "XChaChaPoly" => CipherChoice::XChaChaPoly,
+                    _ => CipherChoice::AESGCM,
+                };
+                fr.resolve_cipher(&c).map(|d| d.name().to_string()).unwrap_or("none".into())
+            },
+            _ => {
+                let c = match choice {
+                    "SHA256" => HashChoice::SHA256,
+                    "SHA512" => HashChoice::SHA512,
+                    "BLAKE2s" => HashChoice::Blake2s,
+                    _ => HashChoice::Blake2b,
+                };
+                fr.resolve_hash(&c).map(|d| d.name().to_string()).unwrap_or("none".into())
+            },
+        }
+    };
+    for r in read_tlc_json(o.req("table")?, "FBK2")? {
+        let kind = r["kind"].as_str().ok_or("kind")?.to_string();
+        let (f1, f2) = (&r["first"], &r["second"]);
+        let provides = |member: &str| -> Vec<String> {
+            let mut v = vec![];
+            for q in [f1, f2] {
+                if q[format!("{member}_has")].as_bool() == Some(true) {
+                    v.push(q["choice"].as_str().unwrap_or("").to_string());
+                }
+            }
+            v
+        };
+        let mk = |tag: &'static str, byte: u8, also: Vec<String>| Marker {
+            tag,
+            byte,
+            has_kind: kind.clone(),
+            has_choice: String::new(),
+            has: false,
+            also,
+        };
+        let fr = FallbackResolver::new(Box::new(mk("preferred", 0x11, provides("preferred"))), Box::new(mk("fallback", 0x22, provides("fallback"))));
+        for q in [f1, f2] {
+            let got = query(&fr, &kind, q["choice"].as_str().unwrap_or(""));
+            n += 1;
+            let want = q["expect"].as_str().unwrap_or("");
+            if got != want {
+                viol.push(json!({"op": "resolve", "what": format!("fallback_{kind}_after_history"), "cause": "", "expected": want, "observed": got,
+                                 "name": format!("{kind}: {} then {}", f1["choice"], f2["choice"]), "row": r}));
+                break;
+            }
         }
     }
     let res = json!({"rows": n, "violations": viol, "samples": rows.iter().take(3).collect::<Vec<_>>()});
